@@ -376,3 +376,74 @@ class MixedMoney(metaclass=StableHashMeta):
             "choices": ({"name": "amount", "type": Decimal}, {"name": "count", "type": int}, {"name": "ratio", "type": float}, {"name": "b", "type": str}),
         },
     )
+
+
+@dataclass
+class Measure(metaclass=StableHashMeta):
+    """A compound field without a string choice: a plain string value has to be matched by its lexical form."""
+
+    class Meta:
+        name = "measure"
+        namespace = "urn:e"
+
+    items: list[object] = field(
+        default_factory=list,
+        metadata={
+            "type": "Elements",
+            "choices": (
+                {"name": "count", "type": int},
+                {"name": "ratio", "type": float},
+                {"name": "day", "type": XmlDate},
+                {"name": "amount", "type": Decimal},
+            ),
+        },
+    )
+
+
+def make_invoice(namespace):
+    """Classes made by one factory share their module and qualified name."""
+
+    @dataclass
+    class Invoice(metaclass=StableHashMeta):
+        class Meta:
+            name = "invoice"
+
+        number: Optional[str] = field(default=None, metadata={"type": "Element"})
+        total: Optional[Decimal] = field(default=None, metadata={"type": "Attribute"})
+
+    Invoice.Meta.namespace = namespace
+    return Invoice
+
+
+InvoiceV1 = make_invoice("urn:invoice:v1")
+InvoiceV2 = make_invoice("urn:invoice:v2")
+InvoiceNone = make_invoice(None)
+
+
+class Sku:
+    """A value type that needs a converter of its own; m_conv (a late module) registers one."""
+
+    __slots__ = ("code",)
+
+    def __init__(self, code):
+        self.code = code
+
+    def __eq__(self, other):
+        return isinstance(other, Sku) and other.code == self.code
+
+    def __hash__(self):
+        return hash(self.code)
+
+    def __repr__(self):
+        return f"Sku({self.code!r})"
+
+
+@dataclass
+class Stocked(metaclass=StableHashMeta):
+    class Meta:
+        name = "stocked"
+        namespace = "urn:e"
+
+    sku: Optional[Sku] = field(default=None, metadata={"type": "Element"})
+    alt: Optional[Sku] = field(default=None, metadata={"type": "Attribute"})
+    qty: Optional[int] = field(default=None, metadata={"type": "Element"})
